@@ -2796,10 +2796,13 @@ class WBEMConnection:  # pylint: disable=too-many-instance-attributes
                         arg_name, type(bool_param)))
         return bool_param
 
-    def _get_rslt_params(self, result, namespace):
+    def _get_rslt_params(self, result, namespace, exp_type=None):
         """
         Common processing for pull results to separate end-of-sequence,
         enum-context, and entities in IRETURNVALUE.
+
+        If exp_type is not None, the entities in IRETURNVALUE must be objects
+        of that type.
 
         Returns tuple of entities in IRETURNVALUE, end_of_sequence,
         and enumeration_context)
@@ -2829,6 +2832,15 @@ class WBEMConnection:  # pylint: disable=too-many-instance-attributes
 
             elif p[0] == "IRETURNVALUE":
                 rtn_objects = p[2]
+
+        if exp_type is not None:
+            for obj in rtn_objects:
+                if not isinstance(obj, exp_type):
+                    raise CIMXMLParseError(
+                        _format("Expecting {0} object in result list, got "
+                                "{1} object", exp_type.__name__,
+                                obj.__class__.__name__),
+                        conn_id=self.conn_id)
 
         if not end_of_sequence_found and not enumeration_context_found:
             raise CIMXMLParseError(
@@ -7085,7 +7097,8 @@ class WBEMConnection:  # pylint: disable=too-many-instance-attributes
                 has_out_params=True)
 
             result_tuple = pull_inst_result_tuple(
-                *self._get_rslt_params(result, namespace))
+                *self._get_rslt_params(result, namespace,
+                                       CIMInstance))
             return result_tuple
 
         except (CIMXMLParseError, XMLParseError) as exce:
@@ -7316,7 +7329,8 @@ class WBEMConnection:  # pylint: disable=too-many-instance-attributes
                 has_out_params=True)
 
             result_tuple = pull_path_result_tuple(
-                *self._get_rslt_params(result, namespace))
+                *self._get_rslt_params(result, namespace,
+                                       CIMInstanceName))
             return result_tuple
 
         except (CIMXMLParseError, XMLParseError) as exce:
@@ -7599,7 +7613,8 @@ class WBEMConnection:  # pylint: disable=too-many-instance-attributes
                 has_out_params=True)
 
             result_tuple = pull_inst_result_tuple(
-                *self._get_rslt_params(result, namespace))
+                *self._get_rslt_params(result, namespace,
+                                       CIMInstance))
             return result_tuple
 
         except (CIMXMLParseError, XMLParseError) as exce:
@@ -7852,7 +7867,8 @@ class WBEMConnection:  # pylint: disable=too-many-instance-attributes
                 has_out_params=True)
 
             result_tuple = pull_path_result_tuple(
-                *self._get_rslt_params(result, namespace))
+                *self._get_rslt_params(result, namespace,
+                                       CIMInstanceName))
             return result_tuple
 
         except (CIMXMLParseError, XMLParseError) as exce:
@@ -8115,7 +8131,8 @@ class WBEMConnection:  # pylint: disable=too-many-instance-attributes
                 has_out_params=True)
 
             result_tuple = pull_inst_result_tuple(
-                *self._get_rslt_params(result, namespace))
+                *self._get_rslt_params(result, namespace,
+                                       CIMInstance))
             return result_tuple
 
         except (CIMXMLParseError, XMLParseError) as exce:
@@ -8343,7 +8360,8 @@ class WBEMConnection:  # pylint: disable=too-many-instance-attributes
                 has_out_params=True)
 
             result_tuple = pull_path_result_tuple(
-                *self._get_rslt_params(result, namespace))
+                *self._get_rslt_params(result, namespace,
+                                       CIMInstanceName))
             return result_tuple
 
         except (CIMXMLParseError, XMLParseError) as exce:
@@ -8572,7 +8590,8 @@ class WBEMConnection:  # pylint: disable=too-many-instance-attributes
                 MaxObjectCount=MaxObjectCount,
                 has_out_params=True)
 
-            insts, eos, enum_ctxt = self._get_rslt_params(result, namespace)
+            insts, eos, enum_ctxt = self._get_rslt_params(result, namespace,
+                                                          CIMInstance)
 
             query_result_class = _GetQueryRsltClass(result) if \
                 ReturnQueryResultClass else None
@@ -8727,7 +8746,8 @@ class WBEMConnection:  # pylint: disable=too-many-instance-attributes
                 has_out_params=True)
 
             result_tuple = pull_inst_result_tuple(
-                *self._get_rslt_params(result, namespace))
+                *self._get_rslt_params(result, namespace,
+                                       CIMInstance))
             return result_tuple
 
         except (CIMXMLParseError, XMLParseError) as exce:
@@ -8872,7 +8892,8 @@ class WBEMConnection:  # pylint: disable=too-many-instance-attributes
                 has_out_params=True)
 
             result_tuple = pull_path_result_tuple(
-                *self._get_rslt_params(result, namespace))
+                *self._get_rslt_params(result, namespace,
+                                       CIMInstanceName))
             return result_tuple
 
         except (CIMXMLParseError, XMLParseError) as exce:
@@ -9011,7 +9032,8 @@ class WBEMConnection:  # pylint: disable=too-many-instance-attributes
                 has_out_params=True)
 
             result_tuple = pull_inst_result_tuple(
-                *self._get_rslt_params(result, namespace))
+                *self._get_rslt_params(result, namespace,
+                                       CIMInstance))
             return result_tuple
 
         except (CIMXMLParseError, XMLParseError) as exce:
